@@ -91,6 +91,10 @@ def run_case(schema, name, checkers=None, ref=None):
         if len(name) == 0 and direct[1] == 'IndexError':
             res.append(('C11:empty-name-indexerror',
                         'match() of the empty name raises IndexError instead of reporting no match'))
+        elif direct[1] == 'TypeError' and L.has_eq_type_pattern_arg(schema):
+            res.append(('C11:eq_type-unbound-argument-typeerror',
+                        'match raises %s: the built-in $eq_type is called with a pattern argument that has no value '
+                        'yet (forward reference, documented to "match nothing") and fails on None' % direct[2]))
         else:
             res.append(('C11:match-raises', 'match raised %s' % direct[2]))
     else:
@@ -106,7 +110,7 @@ def run_case(schema, name, checkers=None, ref=None):
 
 def schema_for(seed, idx):
     rng = random.Random(seed * 1000003 + idx * 7919 + 11)
-    return L.gen_schema(rng, max_rules=6, signing=(idx % 4 == 3))
+    return L.gen_schema(rng, max_rules=6, signing=(idx % 4 == 3), eq_type_pat_args=(idx % 5 == 0))
 
 
 def run(tier: str, seed: int, shard: tuple[int, int]) -> dict:
